@@ -1054,6 +1054,12 @@ class MeshRegion:
             self.g_13 = self.Rxy**2 * self.I
             self.g_23 = self.bpsign * self.dphidy * self.Rxy**2
         else:
+            # self.tanBeta from calcBeta() is defined relative to the direction of
+            # increasing radial grid index. The x-coordinate is psi, so the tangent of the
+            # angle between e_x and Grad(x) has the opposite sign when psi increases
+            # outward (bpsign=+1) compared to when psi decreases outward (bpsign=-1).
+            tanBeta = -self.bpsign * self.tanBeta
+
             self.g11 = (self.Rxy * self.Bpxy) ** 2
             self.g22 = 1.0 / (self.hy * self.cosBeta) ** 2
             self.g33 = (
@@ -1065,17 +1071,17 @@ class MeshRegion:
                 * self.Bpxy
                 * self.I
                 * self.dphidy
-                * self.tanBeta
+                * tanBeta
                 / self.hy
             )
-            self.g12 = self.Rxy * numpy.abs(self.Bpxy) * self.tanBeta / self.hy
+            self.g12 = self.Rxy * numpy.abs(self.Bpxy) * tanBeta / self.hy
             self.g13 = (
-                -self.Rxy * self.Bpxy * self.dphidy * self.tanBeta / self.hy
+                -self.Rxy * self.Bpxy * self.dphidy * tanBeta / self.hy
                 - self.I * (self.Rxy * self.Bpxy) ** 2
             )
             self.g23 = (
                 -self.bpsign * self.dphidy / (self.hy * self.cosBeta) ** 2
-                - self.Rxy * numpy.abs(self.Bpxy) * self.I * self.tanBeta / self.hy
+                - self.Rxy * numpy.abs(self.Bpxy) * self.I * tanBeta / self.hy
             )
 
             self.J = self.hy / self.Bpxy
@@ -1088,7 +1094,7 @@ class MeshRegion:
             self.g_33 = self.Rxy**2
             self.g_12 = (
                 self.bpsign * self.I * self.dphidy * self.Rxy**2
-                - self.hy * self.tanBeta / (self.Rxy * numpy.abs(self.Bpxy))
+                - self.hy * tanBeta / (self.Rxy * numpy.abs(self.Bpxy))
             )
             self.g_13 = self.I * self.Rxy**2
             self.g_23 = self.bpsign * self.dphidy * self.Rxy**2
